@@ -129,6 +129,43 @@ Proof.
   - destruct (f_cnt LP), (f_idx LP); split; lia.
 Qed.
 
+(* exactly once per thread: what dispatch queues for one packet satisfies dl_once_ok *)
+Lemma prefix_deliveries_threads n mk : forall bits i ds, prefix_deliveries n i bits mk = Some ds ->
+  exists ts, ds = map mk ts /\ Forall (fun t => i <= t) ts /\ threads_nodup ts = true.
+Proof.
+  induction bits as [|b bits IH]; intros i ds H; cbn [prefix_deliveries] in H.
+  - inversion H; subst. exists []. repeat split; constructor.
+  - destruct (prefix_deliveries n (i + 1) bits mk) as [rest|] eqn:E; [|discriminate].
+    destruct (IH (i + 1) rest E) as (ts & -> & Hge & Hnd).
+    destruct b.
+    + destruct (i <? n); [|discriminate]. inversion H; subst. exists (i :: ts). split; [reflexivity|]. split.
+      * constructor; [lia|]. eapply Forall_impl; [|exact Hge]. cbn beta. intros; lia.
+      * cbn [threads_nodup]. rewrite Hnd, andb_true_r. apply negb_true_iff. apply Bool.not_true_is_false. intros Hex.
+        apply existsb_exists in Hex as (t & Hin & Heq). apply N.eqb_eq in Heq. subst t.
+        rewrite Forall_forall in Hge. specialize (Hge i Hin). lia.
+    + inversion H; subst. exists ts. split; [reflexivity|]. split; [|exact Hnd].
+      eapply Forall_impl; [|exact Hge]. cbn beta. intros; lia.
+Qed.
+
+Theorem dispatch_once_lemma : forall c st i d raw tok mark nh cp st' out,
+  dispatch true c st i d raw tok mark nh cp = HOk st' out -> dl_once_ok (r_nthreads c) out = true.
+Proof.
+  intros c st i d raw tok mark nh cp st' out H. unfold dispatch in H.
+  destruct i as [info|].
+  - destruct (h_thread info <? r_nthreads c); [|discriminate]. inversion H; subst. reflexivity.
+  - destruct d as [info|]; [|inversion H; reflexivity].
+    destruct (lenN tok =? 6) eqn:E6.
+    + unfold get_fw_thread in H. destruct (be16 tok <? r_nthreads c) eqn:Et; inversion H; subst; [|reflexivity].
+      unfold dl_once_ok. cbn [map d_thread d_interest d_tok threads_nodup existsb negb andb length Nat.eqb]. now rewrite E6, N.eqb_refl, Et.
+    + destruct (prefix_deliveries (r_nthreads c) 0 (p_threads info) (fun t => mkDel t false raw tok mark nh cp)) as [ds|] eqn:Ep; [|discriminate].
+      inversion H; subst out. destruct (prefix_deliveries_threads _ _ _ _ _ Ep) as (ts & -> & _ & Hnd).
+      destruct ts as [|t ts]; [reflexivity|].
+      remember (map (fun t0 => mkDel t0 false raw tok mark nh cp) (t :: ts)) as ds eqn:Eds.
+      assert (Hm : map d_thread ds = t :: ts) by (subst ds; rewrite map_map; cbn [d_thread]; apply map_id).
+      destruct ds as [|d0 ds']; [discriminate|]. cbn [map] in Eds. injection Eds as Ed0 _.
+      unfold dl_once_ok. rewrite Hm, Hnd. subst d0. cbn [d_interest d_tok andb]. now rewrite E6.
+Qed.
+
 (* handleIncomingFrame on ANY decoded frame, in ANY state: no panic; the store grows by at most maxFragCount slots and
    by at most the bytes of the fragment carried by the frame; every delivery goes to an existing thread *)
 Theorem handle_frame_total_lemma : forall c inner st dec frame,
